@@ -397,6 +397,7 @@ func c01Run(c *fw.Ctx) {
 	}
 	editTrees = append(editTrees, resp.A(resp.B("0"), resp.A(resp.B("k1"), resp.B("k2"))), resp.A(resp.A(resp.A(resp.B("deep")))), resp.A(resp.A(resp.A(), resp.S("x")), resp.A(resp.A(resp.I(1)))))
 	c01Edits(c, editTrees)
+	c01Shared(c)
 	// (vi) constructors
 	c01Ctors(c, lineAlpha, bulkAlpha)
 	// (vii) ordered pairs: results for the first value retained across the second
@@ -621,6 +622,9 @@ func c01Replay(raw json.RawMessage) (string, bool, error) {
 		}
 		clause, detail := c01CheckValue(v)
 		return fmt.Sprintf("value=%s clause=%q detail=%s", trunc(cs.Value, 200), clause, detail), clause != "", nil
+	}
+	if cs.Kind == "shared" {
+		return "", false, fmt.Errorf("shared-buffer cases are re-derived by the check itself; run ./check C01 quick")
 	}
 	if cs.Kind == "edit" {
 		var ec c01EditCase
